@@ -626,6 +626,12 @@ class SplineObject(object):
         slices = [slice(None, None, None) for _ in range(direction)] + [slice(None, None, -1)]
         self.controlpoints = self.controlpoints[tuple(slices)]
 
+        # a periodic basis function i is mirrored onto function (n+k-i) mod n, so the
+        # flipped control points must also be rolled by k+1 along that direction
+        periodic = self.bases[direction].periodic
+        if periodic > -1:
+            self.controlpoints = np.roll(self.controlpoints, periodic + 1, direction)
+
         return self
 
     def swap(self, dir1=0, dir2=1):
